@@ -32,6 +32,7 @@ func runC07(c *Ctx) {
 	ruleLiveGroup(c, "R7.4")
 	ruleCompletedOnlyOnSuccess(c, "R7.5")
 	ruleChainInfoInputs(c, "R7.6")
+	ruleJoinerCatchesUp(c, "R7.7")
 }
 
 // R7.1 -------------------------------------------------------------------------------------------
@@ -728,4 +729,80 @@ func isTransitionCallback(p *Prog, fn *ssa.Function) bool {
 		}
 	})
 	return found
+}
+
+// R7.7: a node that completes a resharing (any epoch but the first) starts its beacon in catch-up mode, whether or not it
+// took part in the previous epoch: a fresh joiner has no previous output of its own, but the chain's genesis is long past.
+func ruleJoinerCatchesUp(c *Ctx, rule string) {
+	c.ranRules[rule] = true
+	fn := c.P.Fn("internal/core.(*BeaconProcess).joinNetwork")
+	if !c.Anchor(rule, "internal/core.(*BeaconProcess).joinNetwork", fn != nil) {
+		return
+	}
+	n := 0
+	for _, ci := range callsIn(fn, func(ci ssa.CallInstruction) bool { return strings.HasSuffix(calleeName(ci), "BeaconProcess).StartBeacon") }) {
+		n++
+		a := ci.Common().Args
+		flag := a[len(a)-1]
+		ok := false
+		detail := "catch-up flag = " + trimTemps(pathOf(flag))
+		// the flag is a comparison of the completed epoch with 1 that is false exactly for epoch 1
+		eval := func(epoch int64) (bool, bool) {
+			v := flag
+			neg := false
+			for {
+				if u, isU := v.(*ssa.UnOp); isU && u.Op == token.NOT {
+					v, neg = u.X, !neg
+					continue
+				}
+				break
+			}
+			b, isB := v.(*ssa.BinOp)
+			if !isB {
+				return false, false
+			}
+			side := func(x ssa.Value) (int64, bool) {
+				if k, isK := constInt(x); isK {
+					return k, true
+				}
+				if strings.HasSuffix(pathOf(stripConv(x)), ".New.Epoch") {
+					return epoch, true
+				}
+				return 0, false
+			}
+			l, okl := side(b.X)
+			r, okr := side(b.Y)
+			if !okl || !okr {
+				return false, false
+			}
+			var res bool
+			switch b.Op {
+			case token.EQL:
+				res = l == r
+			case token.NEQ:
+				res = l != r
+			case token.LSS:
+				res = l < r
+			case token.LEQ:
+				res = l <= r
+			case token.GTR:
+				res = l > r
+			case token.GEQ:
+				res = l >= r
+			default:
+				return false, false
+			}
+			return res != neg, true
+		}
+		v1, k1 := eval(1)
+		v2, k2 := eval(2)
+		v9, k9 := eval(9)
+		if k1 && k2 && k9 {
+			ok = !v1 && v2 && v9
+		} else {
+			detail += " (not a comparison of the completed epoch with a constant)"
+		}
+		c.Ok(rule, "joinNetwork starts the beacon in catch-up mode for every epoch after the first", shortPos(c.P, ci), ok, detail)
+	}
+	c.Floor(rule, "StartBeacon calls in joinNetwork", n, 1)
 }
